@@ -120,7 +120,12 @@ def run(ctx):
     def is_count(x):
         return sym_is_call(strip_sym(x), "next_power_of_two")
 
-    ctors = [f for f in u.fns if f.dk == "AssocFn" and f.name in ("new", "atomic") and strip_generics(f.j.get("impl_self", "")).startswith(REG)]
+    def _builds_registry(f):
+        r_ = strip_sym(Sym(f).local(0))
+        return r_[0] == "agg" and "shard_mask" in (r_[4] or ())
+
+    # new/atomic and every further associated function that assembles a Registry itself (an added constructor is held to the same rule)
+    ctors = [f for f in u.fns if f.dk == "AssocFn" and strip_generics(f.j.get("impl_self", "")).startswith(REG) and (f.name in ("new", "atomic") or _builds_registry(f))]
     if len(ctors) < 2:
         chk.unrecognised("C06.a", "<anchor> Registry::{new,atomic}", f"found {len(ctors)}")
     for f in ctors:
